@@ -11,6 +11,9 @@ pub enum Op {
     ReadHeader,
     ReadInfo,
     NextFrame(u8),
+    /// `next_frame` with a buffer that is too short: kind 0 = empty, 1 = one byte, 2 = `output_buffer_size() - 1` bytes.
+    /// The Lean Reader model has no such call: runs that contain it are never sent to the model.
+    ShortFrame(u8),
     NextRow,
     ReadRow,
     NextFrameInfo,
@@ -24,6 +27,7 @@ impl Op {
             Op::ReadHeader => "rh".into(),
             Op::ReadInfo => "ri".into(),
             Op::NextFrame(p) => format!("nf{:02x}", p),
+            Op::ShortFrame(k) => format!("sf{}", k),
             Op::NextRow => "nr".into(),
             Op::ReadRow => "rr".into(),
             Op::NextFrameInfo => "fi".into(),
@@ -40,6 +44,7 @@ impl Op {
             "fi" => Op::NextFrameInfo,
             "fin" => Op::Finish,
             _ if s.starts_with("nf") => Op::NextFrame(u8::from_str_radix(&s[2..], 16).ok()?),
+            _ if s.starts_with("sf") => Op::ShortFrame(s[2..].parse().ok()?),
             _ if s.starts_with('g') => Op::Grow(s[1..].parse().ok()?),
             _ => return None,
         })
@@ -89,11 +94,15 @@ pub struct Config {
     pub limit: Option<usize>,
     /// bit0 EXPAND, bit1 STRIP_16, bit2 ALPHA
     pub flags: u8,
+    /// install `opts` through the public setters of `Decoder` (`ignore_checksums`, `set_ignore_text_chunk`,
+    /// `set_ignore_iccp_chunk`) on a `Decoder::new(..)` instead of `Decoder::new_with_options`; only honoured when
+    /// `setters_representable(opts)`.  The model line is the same either way.
+    pub via_setters: bool,
 }
 
 impl Default for Config {
     fn default() -> Self {
-        Config { opts: DEFAULT_OPTS, limit: None, flags: 0 }
+        Config { opts: DEFAULT_OPTS, limit: None, flags: 0, via_setters: false }
     }
 }
 
@@ -145,7 +154,13 @@ pub fn run_ops_cuts(file: &[u8], visible0: usize, ops: &[Op], cfg: &Config, cuts
     let rd = PieceReader::new(file.to_vec(), cuts.to_vec());
     let visible = rd.visible.clone();
     visible.store(visible0.min(file.len()), Ordering::SeqCst);
-    let mut dec = png::Decoder::new_with_options(rd, decode_options(&cfg.opts));
+    let mut dec = if cfg.via_setters && setters_representable(&cfg.opts) {
+        let mut d = png::Decoder::new(rd);
+        apply_decoder_setters(&mut d, &cfg.opts);
+        d
+    } else {
+        png::Decoder::new_with_options(rd, decode_options(&cfg.opts))
+    };
     // `new_with_options` installs the default limits
     // `None` = the default limits (64 MiB) that `new_with_options` installs
     if let Some(l) = cfg.limit {
@@ -168,7 +183,7 @@ pub fn run_ops_cuts(file: &[u8], visible0: usize, ops: &[Op], cfg: &Config, cuts
         }
         ERR_TEXTS.with(|t| t.borrow_mut().clear());
         let st = std::mem::replace(&mut stage, Stage::Dead);
-        if !matches!(op, Op::NextFrame(_)) {
+        if !matches!(op, Op::NextFrame(_) | Op::ShortFrame(_)) {
             *pending.borrow_mut() = None;
         }
         let pending_ref = &pending;
@@ -203,6 +218,26 @@ pub fn run_ops_cuts(file: &[u8], visible0: usize, ops: &[Op], cfg: &Config, cuts
                                             *pending_ref.borrow_mut() = Some(buf);
                                         }
                                         format!("err({})", err_short(&e))
+                                    }
+                                }
+                            }
+                        }
+                        Op::ShortFrame(k) => {
+                            let size = r.output_buffer_size();
+                            let n = match k { 0 => 0, 1 => 1usize.min(size.saturating_sub(1)), _ => size.saturating_sub(1) };
+                            if n > MAX_BUF {
+                                "toolarge".to_string()
+                            } else {
+                                let mut buf = vec![0xEEu8; n];
+                                match r.next_frame(&mut buf) {
+                                    // a frame cannot fit: any success is reported as such (the oracle of the callers rejects it)
+                                    Ok(oi) => format!("shortframe-accepted({},{},{})", oi.width, oi.height, n),
+                                    Err(e) => {
+                                        if buf.iter().any(|&b| b != 0xEE) {
+                                            "shortframe-written".to_string()
+                                        } else {
+                                            format!("err({})", err_short(&e))
+                                        }
                                     }
                                 }
                             }
